@@ -103,8 +103,10 @@ ENTRIES = {
         "text": "Feeds every public model constructor with generated inputs of every invalid class named in the statement (and valid ones) and requires that "
                 "each Ok(model) passes the exact C03 validity checker, that a lone symbol with the whole mass is never accepted and that valid infer_last input is "
                 "accepted at every precision; clean errors and unwinding panics count as rejection, aborts (std UB checks, SIGSEGV) are attributed to the input by "
-                "the driver. Runs in dbg (UB + overflow checks) and rel (where a zero in a NonZero shows as None through the niche).",
-        "note": TB + "; the Python front end named as a mechanism is not exercised (its constructors forward to the Rust ones; Miri cannot cross the FFI)",
+                "the driver. Runs in dbg (UB + overflow checks) and rel (where a zero in a NonZero shows as None through the niche). The Python front end is driven too: the "
+                "extension built from /repo with --features pybindings, every class of constriction.stream.model from valid and hostile arguments; an accepted model must decode "
+                "arbitrary words into its support, restore them exactly when the symbols are encoded back, and round-trip on both coders.",
+        "note": TB + "; the Python part runs the release build without sanitizers (Miri cannot cross the FFI) and is optional: INCONCLUSIVE if the extension cannot be built",
         "technique": "runtime monitoring: negative-input generation per constructor with the exact reference-model validity checker as acceptance oracle; std UB/overflow checks",
     },
     "C09": {
@@ -119,7 +121,8 @@ ENTRIES = {
     "C10": {
         "text": "Decodes hostile and corrupted word sequences with every decoder and model family under the standard library's unsafe-precondition and overflow checks "
                 "(quick) and additionally AddressSanitizer and Miri (thorough); any panic, abort, sanitizer report, hang (CPU-time watchdog), undocumented error or "
-                "symbol outside the model's support is a violation. Lookup-table and lazily quantised models get most of the budget because they index tables unchecked.",
+                "symbol outside the model's support is a violation. Lookup-table and lazily quantised models get most of the budget because they index tables unchecked; lookup models are built at every precision "
+                "including PRECISION == Probability bits, and chain coders decode across precision changes.",
         "note": TB + "; ASan/Miri flavours are optional: if the nightly build is unavailable the run is INCONCLUSIVE for that flavour, never silently green",
         "technique": "runtime monitoring under sanitizers: std UB checks + overflow checks, AddressSanitizer, Miri; support-membership oracle; hang watchdog",
     },
@@ -134,21 +137,25 @@ ENTRIES = {
     "C14": {
         "text": "Obtains the chunk map black-box from the real coder with an identity model, then checks for arbitrary models that symbol_i = model_i(chunk_i) and that "
                 "the coder runs out of data at the same step, replaces the model at every position and flips every data bit in turn (sampled for long inputs) and "
-                "requires that at most the corresponding symbol / chunk changes and never the exhaustion point.",
+                "requires that at most the corresponding symbol / chunk changes and never the exhaustion point; interleaves refused operations (seeks the backend must reject, "
+                "retries after out-of-data, transient read failures of a fallible word source) and requires that the i-th successfully decoded symbol still comes from chunk i "
+                "and that out-of-data stays final.",
         "note": TB + "; bit flips in the top State/Word words under from_compressed framing are excluded (head initialisation length depends on their value)",
         "technique": "runtime monitoring: metamorphic perturbation (model replacement, bit flips) against a black-box chunk map from the real coder",
     },
     "C15": {
         "text": "Builds encoder and decoder Huffman trees from generated weight vectors rich in ties, zeros and deep trees and compares EVERY codeword with an independent "
                 "reference construction (the documented (weight,index) tie-break), checks prefix-freeness, the exact Kraft equality, optimality against an independent "
-                "two-queue cost, prefix == reversed suffix form, decode(codeword) == symbol, rejection of out-of-alphabet symbols and NaN reporting.",
+                "two-queue cost, prefix == reversed suffix form, decode(codeword) == symbol, rejection of out-of-alphabet symbols (corner values and values aliasing a valid symbol "
+                "after shifts, added powers of two and wrap-around) and NaN reporting; integer, f64 and f32 weights.",
         "note": TB,
         "technique": "runtime monitoring: differential comparison with an independent reference construction + exact integer structural checks",
     },
     "C16": {
         "text": "Runs interleaved write/read/export/re-import/inspection histories on the bit-level stack and queue coders for five word types against a shadow list of items "
                 "(bits, Exp-Golomb and Huffman symbols), at every fill level of the last word, and sweeps Exp-Golomb round trips over all u8 values, a dense u16 set and all "
-                "2^k-1/2^k/2^k+1/MAX edges of u32/u64 in prefix and suffix form.",
+                "2^k-1/2^k/2^k+1/MAX edges of u32/u64 in prefix and suffix form. Also runs the bit coders over sinks that refuse writes (bounded cursor, capacity, transient "
+                "fault): refused bits are not content, accepted bits still come back in order.",
         "note": TB,
         "technique": "runtime monitoring: shadow-container oracle over generated histories + exhaustive/dense value sweeps for Exp-Golomb",
     },
@@ -163,7 +170,8 @@ ENTRIES = {
     "C20": {
         "text": "Re-runs a slice of every explorer C01..C19 under the standard library's unsafe-precondition and overflow checks (quick: plus a Miri shard of the abuse workload; "
                 "thorough: plus AddressSanitizer and Miri on everything) and adds an accessor-abuse workload (Cursor::buf_mut shrink/replace/grow, forged positions, coders from forged "
-                "raw parts, forged seeks). Only aborts, sanitizer/Miri reports and unsafe-precondition panics count. Cursor::buf_mut breaking the position invariant is a known finding "
+                "raw parts, forged seeks) and a hostile-float-table workload (tables on the fixed-point grid mixed with NaN/inf/negatives and hostile normalisations through every "
+                "constructor; accepted models used through every method). Only aborts, sanitizer/Miri reports and unsafe-precondition panics count. Cursor::buf_mut breaking the position invariant is a known finding "
                 "(K2), matched on its root-cause signature; every other UB event is a VIOLATION.",
         "note": TB + "; ASan cannot see intra-allocation overreads, Miri workloads are small, paths no explorer drives are not judged",
         "technique": "sanitizers and UB interpreter over the runtime-monitoring workloads: std UB checks + overflow checks, Miri, AddressSanitizer; abort localisation and classification by the driver",
